@@ -108,9 +108,42 @@ def lens_value(case, data, params, normalized):
     return float(np.squeeze(lens.lens_log_likelihood(cosmo, **case["hyper"]))), lens, cosmo
 
 
+def lens_values_one_instance(case, data, params_list, normalized):
+    """the same lens object evaluated at a sequence of parameter points, as a sampler does"""
+    cfg = dict(case["cfg"])
+    cfg["normalized"] = normalized
+    lens = lc.make_lens(case["ltype"], cfg, data)
+    out = []
+    for params in params_list:
+        cosmo = make_cosmo(case["model"], params)
+        np.random.seed(0)
+        out.append(float(np.squeeze(lens.lens_log_likelihood(cosmo, **case["hyper"]))))
+    return out
+
+
 def oracle(case):
     fails = []
     lt, c, norm = case["ltype"], case["c"], case["normalized"]
+    # one object visiting several points, as in a chain: the statement is about the likelihood function, so the
+    # values must be those of the fresh-object evaluations below
+    p1, p2 = case["p1"], case["p2"]
+    if lt in RATIO_TYPES:
+        seq = [p1, dict(p1, h0=p1["h0"] * c), p2, dict(p2, h0=p2["h0"] * c)]
+        vals = lens_values_one_instance(case, case["data"], seq, norm)
+        for (a, b, p) in ((vals[0], vals[1], p1), (vals[2], vals[3], p2)):
+            if not close(a, b, 1e-8, atol=1e-8 * max(1.0, abs(a))):
+                fails.append("%s lens (one object, consecutive evaluations) depends on H0: %r at H0=%r vs %r at H0=%r"
+                             % (lt, a, p["h0"], b, p["h0"] * c))
+    else:
+        ds = scale_data(lt, case["data"], c)
+        va = lens_values_one_instance(case, case["data"], [p1, p2], norm)
+        vb = lens_values_one_instance(case, ds, [dict(p2, h0=p2["h0"] * c), dict(p1, h0=p1["h0"] * c)], norm)
+        if all(math.isfinite(v) and v > -1e6 for v in va + vb):
+            d1, d2 = vb[1] - va[0], vb[0] - va[1]
+            tol = 2e-3 if lt in ("DdtHist", "DdtHistKDE", "DdtHistKin") else 1e-6 * max(1.0, abs(d1))
+            if abs(d1 - d2) > tol:
+                fails.append("%s (one object per data set, points visited in different orders): (H0*c, scale/c) changes the "
+                             "log-likelihood by %r at one parameter point and %r at another (not a constant)" % (lt, d1, d2))
     if lt in RATIO_TYPES:
         for p in (case["p1"], case["p2"]):
             a, _, _ = lens_value(case, case["data"], p, norm)
